@@ -6,26 +6,32 @@
 # named properties run against the patched headers (scratch copy; /repo is never modified).
 set -u
 SEED=$(realpath "$1"); shift
+# the seed's files are either in <dir>/OUT (fresh from a sub-agent) or in <dir> itself (/verif/seeded/<id>)
+if [ -d "$SEED/OUT" ]; then OUT="$SEED/OUT"; else OUT="$SEED"; fi
 VERIF=$(cd "$(dirname "$0")/.." && pwd)
 SCR=$(mktemp -d /tmp/frigg-seed.XXXXXX)
 trap 'git -C /repo worktree remove --force "$SCR/wt" >/dev/null 2>&1; rm -rf "$SCR"' EXIT
 git -C /repo worktree add -q --detach "$SCR/wt" HEAD || exit 2
 cp -r "$SCR/wt/include" "$SCR/orig-include"
-if ! git -C "$SCR/wt" apply "$SEED/OUT/patch.diff"; then echo "SEED $(basename $SEED): patch does not apply"; exit 2; fi
+if ! git -C "$SCR/wt" apply "$OUT/patch.diff"; then echo "SEED $(basename $SEED): patch does not apply"; exit 2; fi
 echo "SEED $(basename $SEED): $(git -C "$SCR/wt" diff --stat | tail -1)"
 # (2) existing tests
 if meson setup "$SCR/wt/_build" "$SCR/wt" >/dev/null 2>&1 && meson test -C "$SCR/wt/_build" >"$SCR/test.log" 2>&1; then echo "  existing tests: pass"; else echo "  existing tests: FAIL (seed rejected)"; tail -5 "$SCR/test.log"; fi
 # (3) demonstration
-if [ -f "$SEED/OUT/run.sh" ]; then
-	(cd "$SEED/OUT" && timeout 600 bash ./run.sh "$SCR/wt/include" >"$SCR/demo-changed.log" 2>&1); rc1=$?
-	(cd "$SEED/OUT" && timeout 600 bash ./run.sh "$SCR/orig-include" >"$SCR/demo-orig.log" 2>&1); rc2=$?
+if [ -f "$OUT/run.sh" ]; then
+	(cd "$OUT" && timeout 600 bash ./run.sh "$SCR/wt/include" >"$SCR/demo-changed.log" 2>&1); rc1=$?
+	(cd "$OUT" && timeout 600 bash ./run.sh "$SCR/orig-include" >"$SCR/demo-orig.log" 2>&1); rc2=$?
 	echo "  demonstration: changed tree rc=$rc1, unchanged tree rc=$rc2 $([ $rc1 -ne 0 ] && [ $rc2 -eq 0 ] && echo '(confirmed)' || echo '(NOT confirmed)')"
 fi
 # (4) our checks
 for P in "$@"; do
-	out=$(cd "$VERIF" && FRIGG_ROOT="$SCR/wt" VERIF_SEED=${VERIF_SEED:-1} ./check "$P" --tier "${TIER:-quick}" 2>&1)
+	out=$(cd "$VERIF" && VERIF_FOUND_DIR="$SCR/found" FRIGG_ROOT="$SCR/wt" VERIF_SEED=${VERIF_SEED:-1} ./check "$P" --tier "${TIER:-quick}" 2>&1)
+	if echo "$out" | grep -q "^VIOLATION property=$P" && [ -n "${SAVE:-}" ]; then
+		# keep the shrunk counter-example as a regression tape (seconds-long replay tier)
+		tp=$(echo "$out" | grep "^VIOLATION property=$P" | head -1 | sed 's/.*replay=//'); mkdir -p "$VERIF/replays/$P"
+		[ -f "$tp" ] && cp "$tp" "$VERIF/replays/$P/$(basename "$tp" | cut -d- -f1)-seed-$SAVE.tape"
+	fi
 	if echo "$out" | grep -q "^VIOLATION property=$P"; then echo "  check $P: caught  ($(echo "$out" | grep -B2 '^VIOLATION' | head -1 | cut -c1-170))"
 	elif echo "$out" | grep -q "^ERROR"; then echo "  check $P: ERROR ($(echo "$out" | grep '^ERROR' | head -1 | cut -c1-170))"
 	else echo "  check $P: MISSED ($(echo "$out" | tail -1))"; fi
 done
-rm -rf "$VERIF/replays/found"
